@@ -56,8 +56,14 @@ def _spec_has(interp, e, fr):
     return VBool(HAS(c.z, to_int_z(p)))
 
 
+INSIDE_AREA_ID = z3.Function("inside_area_id", I, I, B)
+
+
 def _spec_inside_area(interp, e, fr):
     p, area = interp.ev(e.args[0], fr), interp.ev(e.args[1], fr)
+    if area.kind == "opaque":
+        # an area known only by name (an element of a list of arbitrarily many areas)
+        return VBool(INSIDE_AREA_ID(to_int_z(p), area.z))
     xs = flatten_area(interp, area, e)
     return VBool(inside_fn(len(xs))(to_int_z(p), *xs))
 
@@ -79,7 +85,19 @@ def _fresh_like(interp, args, kwargs, node):
     raise EngineError(f"fresh_like of opaque {v.tag}")
 
 
+def _copy(interp, args, kwargs, node):
+    """points.copy(): a cloud with the same points (another array)"""
+    c = args[0]
+    r = interp.ctx.fresh("cloud_copy", I)
+    p = z3.Int("p!cc")
+    f = z3.ForAll([p], HAS(r, p) == HAS(c.z, p), patterns=[HAS(r, p), HAS(c.z, p)])
+    interp.ctx.assume(f)
+    interp.ctx.keep_ids.add(f.get_id())
+    return cloud(r)
+
+
 HANDLERS = {
+    "cloud.copy": (_copy, "cloud.copy() holds the same points"),
     "opaque.fresh_like": (_fresh_like, "a cloud reassigned in a loop is some cloud"),
     "cloud.__len__": (_len, "len(cloud) >= 0, and it is non-zero iff some point belongs to the cloud"),
     "corners.tolist": (_tolist, "get_corners(scale).tolist() is the list of the 8 corner rows"),
